@@ -207,8 +207,8 @@ def worker(ctx, job):
 
 def run(ctx):
     njobs = 16
-    nshort = ctx.pick(5, 300)
-    nlong = ctx.pick(20, 2000)
+    nshort = ctx.pick(5, 200)
+    nlong = ctx.pick(20, 1500)
     jobs = [{"short": list(range(j * nshort, (j + 1) * nshort)), "long": list(range(j * nlong, (j + 1) * nlong)),
              "nrandom": ctx.pick(40, 120), "budget": ctx.pick(25, 330)} for j in range(njobs)]
     ctx.shard(jobs, timeout=ctx.pick(60, 400))
